@@ -101,7 +101,7 @@ def rand_case(rng, max_o, max_s, max_f, p_incons=0.15, p_pres=0.15):
     c = dict(rng.choice(GRID)) if rng.random() < 0.6 else R.rand_costs(rng)
     case = {"S": S, "O": O, "costs": c, "pres": pres}
     if rng.random() < 0.25:   # same input object solved before under other costs (see recon.primed)
-        case["prime"] = R.rand_costs(rng, coherent_only=False)
+        case["prime"] = R.rand_costs(rng, coherent_only=False) if rng.random() < 0.6 else "topology"
     return case
 
 
